@@ -98,10 +98,13 @@ var verifOutcomes []int
 var verifOutcomePos int
 
 var verifLazyOutcomes bool
+var verifOutcomeRecord []int
 
 func verifNextOutcome() int {
 	if verifLazyOutcomes {
-		return zzverif.Choice("test-outcome", 3)
+		o := zzverif.Choice("test-outcome", 3)
+		verifOutcomeRecord = append(verifOutcomeRecord, o)
+		return o
 	}
 	if verifOutcomePos < len(verifOutcomes) {
 		o := verifOutcomes[verifOutcomePos]
